@@ -90,6 +90,41 @@ def schema_pyd() -> dict:
     return _SCHEMA["pydantic"]
 
 
+def magic() -> dict:
+    """constants harvested from the source of each class's module (see schema_gen.magic_values)"""
+    if "magic" not in _SCHEMA:
+        from . import schema_gen
+
+        _SCHEMA["magic"] = schema_gen.magic_values(schema(), core.REPO / "src")
+    return _SCHEMA["magic"]
+
+
+def fresh_both(op: str, batches: list[list]) -> list[list[dict]]:
+    """each batch in its OWN pair of freshly started worker processes (state a backend carries from
+    one call to the next — caches keyed too coarsely — depends on what ran first in the process)"""
+    pairs = [[Worker(b) for b in BACKENDS] for _ in batches]
+    try:
+        for ws, cases in zip(pairs, batches):
+            data = json.dumps({"op": op, "cases": cases}, ensure_ascii=True) + "\n"
+            for w in ws:
+                w.p.stdin.write(data)
+                w.p.stdin.flush()
+        res = []
+        for ws in pairs:
+            outs = []
+            for w in ws:
+                line = w.p.stdout.readline()
+                if not line:
+                    raise RuntimeError(f"schema worker ({w.backend}) died")
+                outs.append(json.loads(line))
+            res.append([{"pydantic": a, "fallback": b} for a, b in zip(*outs)])
+        return res
+    finally:
+        for ws in pairs:
+            for w in ws:
+                w.close()
+
+
 # ----------------------------------------------------------------------------- Lean encoding
 def canon_num(v):
     if isinstance(v, float) and v == v and v not in (float("inf"), float("-inf")) and v == int(v) and abs(v) < 2 ** 53:
